@@ -151,11 +151,11 @@ def factor_bound(ev, F, u, reuse=False, c_real=8, c_cplx=32):
             continue
         break
     # multipliers and diagonal preference from the recorded multipliers
-    lim = (Fr(2) if cplx else Fr(1)) / u * (1 + 8 * eps)
+    lim = (Fr(2) if cplx else Fr(1)) / u * (1 + 8 * eps) if u != 0 else None     # u = 0: any nonzero pivot is admissible
     for j in range(n):
         col = [cabs1(DL[i][j]) for i in range(j + 1, m)]
         lmax = max([Fr(1)] + col)
-        if lmax > lim:
+        if lim is not None and lmax > lim:
             bad.append("C02.multiplier_bound")
             break
         if not reuse and not cplx:
@@ -328,9 +328,10 @@ def check_gssvx(ev):
         DL, DU = dense_LU(ev)
         E = absmat_prod(DL, DU, n, n)
     try:
-        check_cond_growth_refine(ev, F, DU, res)
+        check_cond_growth_refine(ev, F, DU, res, DL=DL, E=E)
     except ZeroDivisionError:
         pass
+    check_berr(ev, F, res)
     if ev.get("nrhs", 0) > 0 and "X1" in ev and info in (0, n + 1):
         A = dense_from_triplets(ev["A0"], n, n, cplx)
         if fact == 3 and ev["equed"] in "RCB":
@@ -418,7 +419,7 @@ def norm1(M, n, inf=False):
     return max(sum(cmod(M[i][j]) for i in range(n)) for j in range(n))
 
 
-def check_cond_growth_refine(ev, F, DU, res):
+def check_cond_growth_refine(ev, F, DU, res, DL=None, E=None):
     """C12 / C13 numeric clauses of an expert-driver line; F = the matrix that was factored (AA orientation)"""
     ty = ev["ty"]; cplx = CPLX[ty]; eps = EPS[ty]; n = ev["n"]; info = ev["info"]
     tr = ev["fmt"] == "NR"; trans = ev["opts"]["Trans"]
@@ -431,6 +432,26 @@ def check_cond_growth_refine(ev, F, DU, res):
             true = 1 / (norm1(F, n, inf=not effN) * norm1(Finv, n, inf=not effN))
             res["rcond_true_over_reported"] = float(true / rc) if rc else None
             tol = min(Fr(1, 2), 200 * n * eps / true + Fr(1, 10 ** 6))
+            # The estimator sees A only through the computed factors: each of its solves is an exact solve with a matrix
+            # F + E', |E'| <= |F - LU| + 4 n eps |L||U| (backward error of the triangular solves), whose inverse norm is at
+            # most ||inv(F)|| / (1 - delta), delta = || |inv(F)| |E'| ||.  With an unstable factorization (tiny threshold)
+            # delta is not small and the one-sided bound holds only up to that factor.
+            if DL is not None and E is not None:
+                pr, pc = ev["perm_r"], ev["perm_c"]
+                if sorted(pr) == list(range(n)) and sorted(pc) == list(range(n)):
+                    Eabs = [[Fr(0)] * n for _ in range(n)]
+                    for i in range(n):
+                        for jo in range(n):
+                            ii, j = pr[i], pc[jo]
+                            s_ = Z
+                            for k in range(min(ii, j) + 1):
+                                if DL[ii][k] != Z and DU[k][j] != Z:
+                                    s_ = cadd(s_, cmul(DL[ii][k], DU[k][j]))
+                            Eabs[i][jo] = cabs1(csub(F[i][jo], s_)) + 4 * n * eps * E[ii][j]
+                    P = [[sum(cabs1(Finv[i][k]) * Eabs[k][j] for k in range(n)) for j in range(n)] for i in range(n)]
+                    delta = max(sum(P[i][j] for j in range(n)) for i in range(n)) if not effN else max(sum(P[i][j] for i in range(n)) for j in range(n))
+                    res["cond_delta"] = float(delta)
+                    tol = tol + 2 * delta
             # below machine epsilon both values only say "singular to working precision" (the solves may overflow)
             if rc < true * (1 - tol) and not (true < eps and rc < eps):
                 res["bad"].append("C12.rcond_below_true_value")
@@ -453,6 +474,61 @@ def check_cond_growth_refine(ev, F, DU, res):
             res["bad"].append("C12.growth_factor")
         res["rpg_checked"] = True
     return res
+
+
+def check_berr(ev, F, res):
+    """C13: BERR(j) is the componentwise backward error of the *returned* X(:,j) with respect to the system the
+    refinement routine is given (the equilibrated matrix that was factored, B scaled accordingly, X before it is scaled
+    back), formula of ?gsrfs evaluated exactly; the routine's own evaluation carries a rounding error of at most
+    (nz + 1) eps relative to the denominators."""
+    ty = ev["ty"]; cplx = CPLX[ty]; eps = EPS[ty]; n = ev["n"]; info = ev["info"]
+    o = ev["opts"]
+    if o.get("IterRefine", 0) == 0 or ev["fn"] != "gssvx" or info not in (0, n + 1) or ev.get("nrhs", 0) == 0:
+        return
+    if "berr" not in ev or "X1" not in ev or "B1" not in ev:
+        return
+    tr = ev["fmt"] == "NR"; trans = o["Trans"]
+    if cplx and tr and trans == 2:
+        return                                  # known finding of C05 (DESIGN 9.15): another system is solved
+    effN = (trans == 0) if not tr else (trans != 0)
+    q = ev["equed"]
+    R = [tok(t) if q in "RB" else Fr(1) for t in ev["R"]]
+    C = [tok(t) if q in "CB" else Fr(1) for t in ev["C"]]
+    if any(d <= 0 for d in R + C):
+        return
+    if effN:
+        opF = F
+    elif cplx and trans == 2:
+        opF = [[conj(F[j][i]) for j in range(n)] for i in range(n)]
+    else:
+        opF = [[F[j][i] for j in range(n)] for i in range(n)]
+    D = C if effN else R                        # X was multiplied by D on the way out
+    sml = SAFE[ty][0]
+    safe1 = (n + 1) * sml; safe2 = safe1 / (eps / 2)
+    worst = Fr(0)
+    for k in range(len(ev["X1"])):
+        x = [val(t, cplx) for t in ev["X1"][k]]
+        b = [val(t, cplx) for t in ev["B1"][k]]
+        xs = [(x[j][0] / D[j], x[j][1] / D[j]) for j in range(n)]
+        be = Fr(0)
+        for i in range(n):
+            s_ = Z; den = cabs1(b[i])
+            for j in range(n):
+                if opF[i][j] != Z and xs[j] != Z:
+                    s_ = cadd(s_, cmul(opF[i][j], xs[j])); den += cabs1(opF[i][j]) * cabs1(xs[j])
+            r = cabs1(csub(b[i], s_))
+            if den > safe2:
+                be = max(be, r / den)
+            elif den != 0:
+                be = max(be, (r + safe1) / den)
+        rep = tok(ev["berr"][k])
+        tol = 2 * (n + 6) * eps * (1 + be) + 4 * sml
+        worst = max(worst, abs(rep - be) / (eps if eps else 1))
+        if abs(rep - be) > tol:
+            res["bad"].append("C13.berr_is_not_the_backward_error_of_X")
+            break
+    res["berr_checked"] = True
+    res["berr_dev_in_eps"] = float(worst)
 
 
 SAFE = {"d": (Fr(2) ** -1022, Fr(2) ** -52), "z": (Fr(2) ** -1022, Fr(2) ** -52), "s": (Fr(2) ** -126, Fr(2) ** -23), "c": (Fr(2) ** -126, Fr(2) ** -23)}
@@ -525,22 +601,33 @@ def check_ldperm(ev):
     at most one and matched entries one up to rounding"""
     import itertools, math
     ty = ev["ty"]; cplx = CPLX[ty]; n = ev["n"]
-    if n > 6:
+    if n > 10:
         return {"bad": []}
     A = {}
     for i, j, t in ev["A0"]:
         v = val(t, cplx); A[(i, j)] = float(cmod(v))
     A = {k: a for k, a in A.items() if a != 0}
-    perms = [p for p in itertools.permutations(range(n)) if all((i, p[i]) in A for i in range(n))]
+    # maximum of sum log|a(i,q(i))| over perfect matchings: rows in order, subsets of used columns
+    NEG = float("-inf")
+    best_of = {0: 0.0}
+    for i in range(n):
+        nxt = {}
+        for used, b in best_of.items():
+            for j in range(n):
+                if not used >> j & 1 and (i, j) in A:
+                    w = b + math.log(A[(i, j)])
+                    if w > nxt.get(used | 1 << j, NEG):
+                        nxt[used | 1 << j] = w
+        best_of = nxt
     bad = []
-    if not perms:
+    if not best_of:
         return {"bad": [] if ev["ret"] != 0 else ["C17.structural_singularity_not_reported"]}
     if ev["ret"] != 0:
         return {"bad": ["C17.nonsingular_reported_singular"]}
     p = ev["perm"]
     if sorted(p) != list(range(n)) or any((i, p[i]) not in A for i in range(n)):
         return {"bad": ["C17.not_a_matching_with_nonzero_diagonal"]}
-    best = max(sum(math.log(A[(i, q[i])]) for i in range(n)) for q in perms)
+    best = best_of[(1 << n) - 1]
     mine = sum(math.log(A[(i, p[i])]) for i in range(n))
     tolr = 1e-4 if ty in "sc" else 1e-9
     if mine < best - tolr * (1 + abs(best)):
